@@ -158,6 +158,24 @@ Theorem C06_noticed_failure_shuts_down :
 Proof. exact shutdown_theorem_b. Qed.
 Print Assumptions C06_noticed_failure_shuts_down.
 
+(* ---------- the exception at the caller is an ORIGINAL one, for EVERY network and every schedule ---------- *)
+From SV Require Import Proof.MailboxFailOrig.
+
+(* Whatever the plugin graph and the schedule: if the caller's iteration ends with an exception, it is never a
+   MailboxKilled wrapper (iter unwraps it) and its identity is primary: the exception injected in a thread, the
+   consumer's exception, OutsideException / GeneratorExit of a close, or an error of the plumbing itself
+   (MailBoxAlreadyClosed, unequal inputs of a plugin) — with repair F2 never the StopIteration that used to
+   escape source.throw in divide_outputs, with repair F1 never the TypeError of the GeneratorExit branch. *)
+Theorem C06_caller_gets_original_exception :
+  forall (nt : net) (boxes : list mbox) (threads : list thread) (main : nat) (sched : list nat) (st : nstate) (e : exn),
+    (forall t, In t threads -> t_pc t = PRead /\ t_got t = None) ->
+    (forall m, In m boxes -> mb_killed m = false /\ mb_fkilled m = false) ->
+    nrun nt (ninit nt boxes threads) sched = Some st ->
+    main_outcome st main = Some (OErr e) ->
+    exists c, e = EOrig c /\ prim nt c.
+Proof. exact caller_gets_original. Qed.
+Print Assumptions C06_caller_gets_original_exception.
+
 (* ---------- all schedules of concrete chains and fan-outs, every failure position (verified exhaustive
    exploration of the reachable state set, Proof/MailboxFailReach.v + Proof/MailboxFailInstances.v) ---------- *)
 From SV Require Import Proof.MailboxFailReach Proof.MailboxFailInstances Proof.MailboxFailInstChain
